@@ -59,6 +59,8 @@ def cases(tier, seed):
                 if scn in ("runner", "runner3") or scn.startswith("harv"):
                     # (DataFrame output does not validate the description)
                     fails.append("wrongdesc")
+                    if scn == "runner3":
+                        fails.append("wrongconst")
                 if scn.startswith("harv") and scn != "harv-mem":
                     fails.append("conflict")
                 fails.append("fault")
@@ -71,6 +73,14 @@ def cases(tier, seed):
                            "live": live}
 
 
+    # a Harvester's crop reaped without syncing to disk: the result is
+    # delivered in memory and the clean_up setting is honoured all the same
+    for scn in scns:
+        if scn.startswith("harv"):
+            for cu in (None, True, False):
+                yield {"scn": scn, "clean_up": cu, "allow_incomplete": False,
+                       "wait": False, "state": "complete", "failure": "none",
+                       "live": False, "nosync": True}
     # a long-lived Crop object that looked at the crop while it was still a
     # smaller sweep; the sow script was then run again with the full sweep
     # and everything grown: the reap through that object delivers all of it
@@ -189,6 +199,23 @@ def check_case(case):
 
     expect_exists = (case["clean_up"] is False) or (
         case["clean_up"] is None and case["allow_incomplete"])
+    if case.get("nosync"):
+        try:
+            crop = env.session()
+            res = crop.reap(sync=False, clean_up=case["clean_up"])
+            j = env.judge(res)
+            if j != "exact":
+                vio.append((key("nosync-result"), "reap(sync=False) "
+                            "returned %s" % j))
+            exists = os.path.exists(os.path.join(d, CROPDIR))
+            if exists != expect_exists:
+                vio.append((key("nosync-dir"), "after reap(sync=False, "
+                            "clean_up=%r) the crop directory %s" % (
+                                case["clean_up"],
+                                "exists" if exists else "is gone")))
+        except Exception as e:
+            vio.append((key("nosync-raised:" + type(e).__name__), repr(e)))
+        return fin(case, vio, "nosync")
 
     def after_success(res, state_complete, tag):
         j = env.judge(res)
@@ -302,14 +329,21 @@ def check_case(case):
                             "retry after regrowing raised %r" % e2))
         return fin(case, vio, fl)
     # ----------------------------------------------------------- wrongdesc
-    if fl == "wrongdesc":
+    if fl in ("wrongdesc", "wrongconst"):
         crop = sc.fresh_crop(d)
         runner = crop.runner
-        # (more names than the function has outputs - or, three outputs, one
-        # name too few)
-        runner.var_names = ("out", "half") if case["scn"] == "runner3" \
-            else ("out", "extra")
-        runner.var_dims = None
+        if fl == "wrongconst":
+            # the three outputs described as one vector along 't', and a
+            # constant that labels 't' with two values only
+            runner.var_names = "vec"
+            runner.var_dims = {"vec": ["t"]}
+            runner.constants = {"t": [0, 1]}
+        else:
+            # (more names than the function has outputs - or, three outputs,
+            # one name too few)
+            runner.var_names = ("out", "half") if case["scn"] == "runner3" \
+                else ("out", "extra")
+            runner.var_dims = None
         pre = crop_tree(d)
         try:
             env.reap(crop=crop)
